@@ -909,7 +909,10 @@ def Engine.seatCurrent (e : Engine) (all : Bool) : Seat :=
             match validateOutboundInternal packet e4.settings (e4.cfg.connect.sessionExpiry.getD 0) (some resolution) with
             | .error .panicNoSettings => .ret e4 (.panic "unwrap_negotiated_settings@validate")
             | .error x =>
-              let (e5, r5) := { e4 with current := none }.completeFailure id x.name
+              -- a binding the resolver may have recorded for this packet never reaches the server: forget all bindings
+              let e4r := if resolution.alias.isSome then
+                  { e4 with outRes := e4.outRes.reset ((e4.settings.map (·.topicAliasMaximum)).getD 0) } else e4
+              let (e5, r5) := { e4r with current := none }.completeFailure id x.name
               if r5.isOk then .cont e5 else .ret e5 r5
             | .ok _ =>
               match packetSteps e4.cfg.version resolution packet with
